@@ -10,6 +10,8 @@ SPEC = {
         {"name": "decode", "pkg": EL, "kind": "rapid", "run": "^TestVerifC07Decode$",
          "quick": {"checks": 3000, "shards": 1, "timeout": 300},
          "thorough": {"checks": 40000, "shards": 8, "timeout": 1500}},
+        {"name": "concurrent", "pkg": EL, "kind": "plain", "run": "^TestVerifC07Concurrent$",
+         "quick": {"timeout": 300}, "thorough": {"timeout": 600, "race": True}},
         {"name": "keypairs", "pkg": NT, "kind": "plain", "run": "^TestVerifC07Keypairs$",
          "quick": {"timeout": 300}, "thorough": {"timeout": 300}},
         {"name": "fuzz-decode", "pkg": EL, "kind": "fuzz", "fuzz": "FuzzVerifC07Decode",
